@@ -57,6 +57,19 @@ def presence_mismatch(rep, lo, hi, pairs=None):
     return None
 
 
+def observed_presence(rep, lo, hi):
+    """key -> set of instants in [lo, hi] at which has_interaction answers True (public API only)"""
+    g, m = rep.g, rep.m
+    ns = list(g.nodes())
+    out = {}
+    for i, u in enumerate(ns):
+        for v in (ns if m.directed else ns[i:]):
+            if not g.has_interaction(u, v):
+                continue
+            out[m.key(u, v)] = {t for t in range(lo, hi + 1) if g.has_interaction(u, v, t)}
+    return out
+
+
 def c01(rep, lo, hi, pairs=None):
     bad = presence_mismatch(rep, lo, hi, pairs)
     if bad:
@@ -153,8 +166,12 @@ def c04(rep, lo, hi, counts=True):
 
 
 # ------------------------------------------------------------------ C05 stream
-def c05(rep):
+def c05(rep, pres=None):
+    """pres: presence relation to compare with (default: the model's).  Passing the relation the
+    graph itself reports through has_interaction makes the oracle purely relational, which is what
+    the statement is (used once a run has diverged from the model)"""
     g, m = rep.g, rep.m
+    P = m.pres if pres is None else pres
     st, r = call(lambda: [tuple(e) for e in g.stream_interactions()])
     if st != 'ok':
         raise Violation('C05.stream', 'raises', exc_class(r))
@@ -170,11 +187,11 @@ def c05(rep):
         per.setdefault(m.key(u, v), []).append((op, t))
     n = 1
     for k, ev in per.items():
-        if k not in m.pres:
+        if k not in P:
             raise Violation('C05.stream', 'event-of-unknown-pair', repr(ev))
-    for k in m.pres:
+    for k in P:
         ev = per.get(k, [])
-        runs = m.runs(k)
+        runs = m.runs_of(P[k])
         exempt = m.unclosed2.get(k, ())
         name = sorted(map(repr, k)) if not m.directed else list(map(repr, k))
         n += 1
@@ -211,9 +228,9 @@ def c05(rep):
                         open_at = None
             if open_at is not None:
                 pres.add(open_at)
-            if pres != m.pres[k]:
+            if pres != P[k]:
                 raise Violation('C05.stream', 'decode!=presence', {'pair': name, 'decoded': sorted(pres),
-                                                                   'model': sorted(m.pres[k]), 'events': ev})
+                                                                   'model': sorted(P[k]), 'events': ev})
     return n
 
 
